@@ -22,7 +22,7 @@ int IdentityMatrix::compare(const Basic &o) const
 {
     SYMENGINE_ASSERT(is_a<IdentityMatrix>(o));
 
-    return n_->compare(*down_cast<const IdentityMatrix &>(o).n_);
+    return n_->__cmp__(*down_cast<const IdentityMatrix &>(o).n_);
 }
 
 vec_basic IdentityMatrix::get_args() const
